@@ -530,7 +530,8 @@ impl Gen {
                 if self.r.chance(0.25) {
                     return Cmd::Watch { p, attach: w.nodes[p].as_ref().unwrap().watch_rx.is_none() };
                 }
-                if subs > 0 && self.r.chance(0.15) {
+                // (only nodes allowed to own data write: the size assumptions of the run depend on it)
+                if subs > 0 && self.k.writers.contains(&p) && self.r.chance(0.15) {
                     self.val_ctr += 1;
                     let key = self.r.pick(&self.k.keys).clone();
                     return Cmd::WriteDropping { p, key, val: ValSpec { class: 1, len: self.r.below(12) as u32, seed: (self.r.next() << 12) | self.val_ctr }, sub: self.r.usize_below(subs) };
